@@ -481,6 +481,8 @@ def run(ctx, rep):
     if oc is None:
         rep.anchor("C04.occurs", "Incomplete::occurs_check")
     else:
+        # the two sets may be wrapped in a private struct with accessor methods: splice those back in
+        oc = F.inlined(oc, ("remove", "insert", "contains", "new"), depth=3)
         To = Terms(oc)
         To.site_names = {"new"}
         removes = [cs for cs in oc.calls() if cs.name == "remove" and "HashSet" in cs.callee]
@@ -509,11 +511,14 @@ def run(ctx, rep):
 
     # component-wise decomposition in ContextInner::bind
     rep.rule("C04.bind", "binding a sum/product binds both components, first with first and second with second, on every success path")
-    bind = [f for f in F.fns.values() if f.name == "bind" and "ContextInner" in f.path and f.kind != "Closure"]
+    # the store type (ContextInner on the pinned tree) is private and may be renamed: its `bind` is the method of that name on
+    # the ghost-token wrapper in types::context
+    bind = [f for f in F.fns.values() if f.name == "bind" and f.path.startswith("simplicity::types::context::<impl simplicity::types::union_bound::WithGhostToken<")
+            and f.kind != "Closure"]
     if len(bind) != 1:
         rep.anchor("C04.bind", "ContextInner::bind")
     else:
-        f = bind[0]
+        f = F.inlined(bind[0], ("unify", "bind", "shallow_clone", "deref", "as_ref", "borrow"), depth=3)
         # decision table of bind over (kind of the existing bound, kind of the new bound), by abstract evaluation: a sum bound
         # against a product bound (either way round) is a type error on every path and never decomposed; matching
         # constructors are decomposed; a free bound on either side never fails
@@ -543,8 +548,14 @@ def run(ctx, rep):
                     return ("rec",)
                 return None
             out = set()
-            for eff, normal in absint.evaluate(f, {new_idx: ("enum", "Bound", k2, None)}, call_value, effect):
-                out.add((tuple(x[0] for x in eff if x[0] in ("err", "rec")), normal, any(x[0] in ("?", "?branch") and x[0] == "?" for x in eff)))
+            # an error is the bind_error closure's value or an `Err(..)` built in place (or propagated with `?`)
+            marks = {b_: ("err",) for b_ in flow.error_blocks(f)}
+            for eff, normal in absint.evaluate(f, {new_idx: ("enum", "Bound", k2, None)}, call_value, effect, mark_blocks=marks):
+                sh = []
+                for x in eff:
+                    if x[0] in ("err", "rec") and not (x[0] == "err" and sh and sh[-1] == "err"):
+                        sh.append(x[0])
+                out.add((tuple(sh), normal, any(x[0] in ("?", "?branch") and x[0] == "?" for x in eff)))
             return out
         for k1 in kinds:
             for k2 in kinds:
@@ -567,10 +578,15 @@ def run(ctx, rep):
                         rep.ok("C04.bind", key, "decomposed component-wise")
                     else:
                         rep.violation("C04.bind", key, "matching %s bounds are not decomposed into two component-wise unifications (effects %s)" % (k1.lower(), sorted(shapes)), f.where())
-        Tb = Terms(f)
-        errs = flow.error_blocks(f)
+        # the two component-wise calls sit in bind itself or in one private helper of it (which the view above may contain
+        # once per call site): look at the function that holds them
+        cands = [bind[0]] + [F.fns[p_] for p_ in sorted(set(getattr(f, "inlined_helpers", ()))) if p_ in F.fns]
         for nm in ("bind", "unify"):
-            calls = [cs for cs in f.calls() if cs.name == nm and "ContextInner" in cs.callee]
+            holders = [g for g in cands if any(cs.name == nm and "types::context::" in (cs.callee or "") for cs in g.calls())]
+            f = holders[0] if len(holders) == 1 else bind[0]
+            Tb = Terms(f)
+            errs = flow.error_blocks(f)
+            calls = [cs for cs in f.calls() if cs.name == nm and "types::context::" in (cs.callee or "")]
             if len(calls) != 2:
                 rep.violation("C04.bind", nm + ":count", "expected two component-wise %s calls in bind, found %d" % (nm, len(calls)), f.where())
                 continue
@@ -711,7 +727,8 @@ def run(ctx, rep):
                                       "Context::lock (std::sync::Mutex is not re-entrant: deadlock)" % callee, where)
                 else:
                     rep.ok("C04.lock", key, "no re-entrant call while the guard is live")
-        rep.floor("C04.lock", n_scopes, 9)
+        # nine on the pinned tree; two constructors sharing one private helper (and so one guard) lower it without harm
+        rep.floor("C04.lock", n_scopes, 7)
 
     # ------------------------------------------------------------------ recursion
     roots = [p for p in F.fns if p.startswith("simplicity::types::") and "::tests::" not in p]
@@ -748,10 +765,12 @@ def _undo(F, rep):
         return
     cell = _e.canon(T.operand(reps[0].args[0]))
     saved = reps[0].dest[0]
+    # the field that is replaced (`data` on the pinned tree): the last projection of the replaced place
+    fld = "." + re.sub(r"[^A-Za-z0-9_]+$", "", cell).rsplit(".", 1)[-1] if "." in cell else ".data"
     restores = []
     for b in f.rpo():
         for st in f.blocks[b]["s"]:
-            if st[0] == "=" and st[1][1] and st[1][1][-1] == ".data" and b in f.reachable(reps[0].bb):
+            if st[0] == "=" and st[1][1] and st[1][1][-1] == fld and b in f.reachable(reps[0].bb):
                 rv = st[2]
                 src = rv.get("a", {}).get("p", [None])[0] if rv.get("k") == "use" else None
                 if src is not None and saved in _copies_of(f, src, saved):
@@ -764,7 +783,7 @@ def _undo(F, rep):
         bt = T.place([st[1][0], st[1][1][:-1]] + list(st[1][2:]))
         while isinstance(bt, tuple) and bt and bt[0] == "with":      # Terms' record of the field write itself
             bt = bt[1]
-        base = _e.canon(bt) + ".data"
+        base = _e.canon(bt) + fld
         if base.replace("*", "") == cell.replace("*", ""):
             rep.ok("C04.bind", "unify: failed binding restores the data of the cell it replaced", cell[:80])
         else:
